@@ -30,10 +30,11 @@ where
         Ok(case) => {
             crate::cover!(true, "loaded");
             assert!(C::same_eps(&x, &*case), "C08: load_mem yields the structure obtained by deserializing the file's bytes");
-            #[cfg(kani)]
+            // LAST_* are fed by the allocation stub under Kani and by the replay
+            // program's global allocator natively (blocks with alignment >= 16)
             unsafe {
                 let p = LAST_ALLOC as usize;
-                assert!(N_ALLOC >= 1 && p != 0, "HARNESS: backing block captured");
+                assert!(N_ALLOC >= 1 && p != 0, "C08: the backing region is an over-aligned heap block (none with alignment >= 16 was allocated)");
                 assert!(p % 64 == 0 && LAST_ALIGN >= 64, "C08: backing region is aligned for the largest supported unit");
                 assert!(LAST_SIZE % 64 == 0 && LAST_SIZE >= total && LAST_SIZE < total + 64, "C08: region size is the file length rounded up to 64");
                 let k: usize = any();
@@ -86,15 +87,24 @@ where
     let mut s = Sink::<64>::new();
     let n = match x.serialize(&mut s) { Ok(n) => n, Err(_) => { assert!(false, "HARNESS: serializes"); 0 } };
     // the destination may already exist with older (longer or shorter) contents
+    let old: usize = any();
+    assume(old <= FCAP);
     #[cfg(kani)]
     unsafe {
-        let old: usize = any();
-        assume(old <= FCAP);
         OUT_FILE_LEN = old;
         OUT_DATA = [0xEE; FCAP];
         crate::cover!(old > 50, "destination pre-exists with longer contents");
     }
-    let r = x.store("out");
+    #[cfg(kani)]
+    let path = "out";
+    // native replay: the same scenario on a real file
+    #[cfg(not(kani))]
+    let path = {
+        let p = std::env::temp_dir().join(format!("vh-replay-out-{}.bin", std::process::id()));
+        std::fs::write(&p, vec![0xEEu8; old]).unwrap();
+        p
+    };
+    let r = x.store(&path);
     assert!(r.is_ok(), "C08: store succeeds on a writable file");
     core::mem::forget(r);
     #[cfg(kani)]
@@ -104,6 +114,13 @@ where
         let k: usize = any();
         assume(k < n);
         assert!(OUT_DATA[k] == s.buf[k], "C08: store writes exactly the serialized bytes");
+    }
+    #[cfg(not(kani))]
+    {
+        let got = std::fs::read(&path).unwrap();
+        let _ = std::fs::remove_file(&path);
+        assert!(got.len() == n, "C08: after store the file holds exactly the serialized bytes (no stale tail of an older file)");
+        assert!(got[..] == s.buf[..n], "C08: store writes exactly the serialized bytes");
     }
 }
 
